@@ -213,6 +213,9 @@ def install(E):
             if kd == "p" or (skip and nm.startswith(skip)):
                 continue
             q = Ptr(a[0].obj, E.padd(a[0].off, o))
+            if kd == "f":
+                E.store(st, q, ir.I8P, Ptr(0, 0x5a5a5a5a5a5a5a5a))      # a stale callback address
+                continue
             if kd == "d":
                 f = struct.unpack("<d", b"\x5a" * 8)[0] if sz == 8 else struct.unpack("<f", b"\x5a" * 4)[0]
                 E.store(st, q, ir.DOUBLE if sz == 8 else ir.FLOAT, Fraction(f) if E.exact else f)
@@ -230,7 +233,7 @@ def install(E):
             if skip and nm.startswith(skip):
                 continue
             pa, pb = Ptr(a[1].obj, E.padd(a[1].off, o)), Ptr(a[2].obj, E.padd(a[2].off, o))
-            ty = ir.I8P if kd == "p" else (ir.DOUBLE if sz == 8 else ir.FLOAT) if kd == "d" else ir.intT(8 * sz)
+            ty = ir.I8P if kd in ("p", "f") else (ir.DOUBLE if sz == 8 else ir.FLOAT) if kd == "d" else ir.intT(8 * sz)
             try:
                 va = E.load(st, pa, ty)
             except S.MemError:
@@ -239,7 +242,7 @@ def install(E):
                 vb = E.load(st, pb, ty)
             except S.MemError:
                 vb = "<uninitialised>"
-            if kd == "p":
+            if kd in ("p", "f"):
                 na = va.is_null() if isinstance(va, Ptr) else va
                 nb = vb.is_null() if isinstance(vb, Ptr) else vb
                 same = na == nb
